@@ -172,6 +172,16 @@ def run(ctx):
             except affine.NotAffine as e:
                 good = False
                 why.append(str(e))
+        for p in succ:
+            r = agg_field(p.ret, '0')
+            if any(isinstance(x, tuple) and x and x[0] == 'havoc' for x in absint.subterms(r)) or r[0] != 'lv':
+                good = False
+                why.append("the vector returned is not the one the entries were pushed to, untouched (%s)" % absint.term_str(r)[:60])
+        from .C20 import REORDER
+        for b, t in mir.calls(f):
+            if mir.callee_decl(t) in REORDER:
+                good = False
+                why.append("the parsed index is reordered / filtered by %s" % mir.callee_decl(t))
         ctx.ob("C04.agree", "index parser", good, "; ".join(sorted(set(why))) or "two BE i32 per entry into (offset, record_size); N(L(n)) = n",
                site=ctx.site_of(F, f["def"]), key="C04.agree|index-reader")
     # writer entry layout vs spec, reader entry layout vs spec
